@@ -347,6 +347,40 @@ impl Default for PhoneticSuggestion {
     }
 }
 
+#[cfg(feature = "verif")]
+impl PhoneticSuggestion {
+    /// Verification hook: render the suggestion maker's mutable state.
+    pub(crate) fn verif_snapshot_into(
+        &self,
+        map: &mut serde_json::Map<String, serde_json::Value>,
+        level: u8,
+    ) {
+        use std::collections::BTreeMap;
+        fn ranks(list: &[Rank]) -> serde_json::Value {
+            list.iter()
+                .map(|r| match r {
+                    Rank::First(s) => serde_json::json!(["F", s, 0]),
+                    Rank::Emoji(s, n) => serde_json::json!(["E", s, n]),
+                    Rank::Other(s, n) => serde_json::json!(["O", s, n]),
+                    Rank::Last(s, n) => serde_json::json!(["L", s, n]),
+                })
+                .collect()
+        }
+        let user: BTreeMap<&String, &String> = self.user_autocorrect.iter().collect();
+        map.insert("user_autocorrect".into(), serde_json::to_value(user).unwrap());
+        map.insert("suggestions".into(), ranks(&self.suggestions));
+        if level >= 2 {
+            let cache: BTreeMap<&String, serde_json::Value> =
+                self.cache.iter().map(|(k, v)| (k, ranks(v))).collect();
+            map.insert("cache".into(), serde_json::to_value(cache).unwrap());
+        } else {
+            let mut keys: Vec<&String> = self.cache.keys().collect();
+            keys.sort();
+            map.insert("cache_keys".into(), serde_json::to_value(keys).unwrap());
+        }
+    }
+}
+
 #[cfg(test)]
 mod tests {
     use ahash::RandomState;
